@@ -9,6 +9,13 @@ use ark_poly_commit::{Evaluations, PolynomialCommitment};
 /// exactly when every per-point `check` accepts (same sponge, same order). Every claim carries a
 /// free symbolic error (zero included).
 pub fn equiv<S: Sch>(cfg: &Cfg, ntapes: usize, honest_only: bool) -> Verdict {
+    equiv_mode::<S>(cfg, ntapes, honest_only, false)
+}
+
+/// `forge_w`: additionally the witness element(s) of the proof for the last point label are replaced by fresh
+/// symbolic group elements (the identity included), i.e. the batch and the per-point verifiers are compared
+/// on proofs the prover controls
+pub fn equiv_mode<S: Sch>(cfg: &Cfg, ntapes: usize, honest_only: bool, forge_w: bool) -> Verdict {
     let mut w = match catch(|| build::<S>(cfg)) {
         Ok(Ok(w)) => w,
         _ => return Verdict::Discard("honest phase failed".into()),
@@ -27,6 +34,25 @@ pub fn equiv<S: Sch>(cfg: &Cfg, ntapes: usize, honest_only: bool) -> Verdict {
             *ev.get_mut(k).unwrap() += sym(&format!("err{}", i));
         }
     }
+    let proof = if forge_w {
+        let mut proofs: Vec<ProofOf<S>> = proof.into();
+        if let Some(last) = proofs.last_mut() {
+            let mut k = 0;
+            while S::set_proof_elem(last, k, sym(&format!("fw{}", k))) {
+                k += 1;
+                if k >= 4 || S::UNIVARIATE {
+                    break;
+                }
+            }
+            if k == 0 {
+                return Verdict::viol("driver", "scheme has no witness element to forge");
+            }
+        }
+        let bp: BatchProofOf<S> = proofs.into();
+        bp
+    } else {
+        proof
+    };
     let mut all_batch = true;
     for tpe in 0..ntapes {
         let mut sp_v = sp0.clone();
